@@ -93,7 +93,8 @@ def plan_case(rng, tier):
             ey = round(sy + j + radius * math.sin(a1), 4)
     return {"sx": sx, "sy": sy, "i": i, "j": j, "ex": ex, "ey": ey,
             "cw": clockwise, "full": kind == "full", "r": radius, "sweep": sweep,
-            "units": rng.choice(["mm", "mm", "mm", "mm", "inch", "inch", "stale"])}
+            "units": rng.choice(["mm", "mm", "mm", "mm", "inch", "inch", "stale"]),
+            "prev": rng.choice([None, None, None, [5.0, 5.0], [-3.0, 0.0], [0.0, 12.5]])}
 
 
 def observe_plan(case):
@@ -107,12 +108,21 @@ def observe_plan(case):
             # the start point the code sees is (sx * 25.4) / 25.4: a full circle ends there
             case = dict(case, ex=rig.state.position.X_AXIS.nativeToLogical(),
                         ey=rig.state.position.Y_AXIS.nativeToLogical())
+        if case.get("prev"):
+            # the same handlers object has just planned an arc with the very same words from
+            # another start point (arcs repeated along a pattern): nothing of it may be reused
+            pos = rig.state.position
+            keep = (pos.X_AXIS.current, pos.Y_AXIS.current)
+            pos.X_AXIS.current += case["prev"][0]
+            pos.Y_AXIS.current += case["prev"][1]
+            rig.handlers.planArc(case["ex"], case["ey"], case["i"], case["j"], case["cw"])
+            pos.X_AXIS.current, pos.Y_AXIS.current = keep
         pts = rig.handlers.planArc(case["ex"], case["ey"], case["i"], case["j"], case["cw"])
         cx, cy = case["sx"] + case["i"], case["sy"] + case["j"]
         radius = math.hypot(case["i"], case["j"])
         scale = RS / radius
         coords = [(case["sx"], case["sy"])] + [(pts[k], pts[k + 1]) for k in range(0, len(pts), 2)]
-        event["P"] = [[clamp((x - cx) * scale, 100000), clamp((y - cy) * scale, 100000)]
+        event["P"] = [[clamp((x - cx) * scale, 30000), clamp((y - cy) * scale, 30000)]
                       for x, y in coords]
         event["steps"] = [[clamp((coords[k + 1][0] - coords[k][0]) * 10000),
                            clamp((coords[k + 1][1] - coords[k][1]) * 10000)]
@@ -153,10 +163,10 @@ def observe_centre(case):
             scale = RS / abs(case["R"])
             cx, cy = case["x1"] + i, case["y1"] + j
             event["some"] = True
-            event["c1"] = [clamp((case["x1"] - cx) * scale, 100000),
-                           clamp((case["y1"] - cy) * scale, 100000)]
-            event["c2"] = [clamp((case["x2"] - cx) * scale, 100000),
-                           clamp((case["y2"] - cy) * scale, 100000)]
+            event["c1"] = [clamp((case["x1"] - cx) * scale, 30000),
+                           clamp((case["y1"] - cy) * scale, 30000)]
+            event["c2"] = [clamp((case["x2"] - cx) * scale, 30000),
+                           clamp((case["y2"] - cy) * scale, 30000)]
     except Exception as err:  # pylint: disable=broad-except
         event["raised"] = type(err).__name__
     return event
